@@ -206,10 +206,14 @@ def relations_init(model, R):
     c = combos[0]
     R.check(len(c.args) == 2 and const(c.args[1]) == 2, 'PAIRING', func, c, 'each unordered pair once', 'combinations(..., 2)', src(c)[:80])
     srcgen = c.args[0]
+    if isinstance(srcgen, ast.Name) and env.single(srcgen.id) is not None:
+        srcgen = env.single(srcgen.id)
     ok = False
     filt_cls = None
+    recognised_gen = False
     if isinstance(srcgen, (ast.GeneratorExp, ast.ListComp)) and len(srcgen.generators) == 1:
         g = srcgen.generators[0]
+        recognised_gen = True
         it = env.expand(g.iter, alias_only=True)
         in_order = name_is(g.iter, 'unary')
         if len(g.ifs) == 1:
@@ -223,7 +227,14 @@ def relations_init(model, R):
         ok = in_order and elt_ok
     R.check(ok, 'PAIRING', func, c, 'pairs drawn from the unary entries in item order, carrying (item, column)',
             '((u.left, u.bools) for u in unary if ...)', src(srcgen)[:100])
-    R.check(filt_cls == 'Contingency', 'PAIRING', func, c, 'only contingent items are paired', 'u.__class__ is Contingency', f'filter class {filt_cls}')
+    if not recognised_gen:
+        R.unknown('PAIRING', func, c, 'only contingent items are paired', f'source of the pairs: {src(srcgen)[:80]}')
+    elif filt_cls is None and not srcgen.generators[0].ifs:
+        R.bad('PAIRING', func, c, 'only contingent items are paired', 'u.__class__ is Contingency', 'no filter: tautologies and contradictions are paired, too')
+    elif filt_cls is None:
+        R.unknown('PAIRING', func, c, 'only contingent items are paired', src(srcgen.generators[0].ifs[0]))
+    else:
+        R.decided(filt_cls == 'Contingency', 'PAIRING', func, c, 'only contingent items are paired', 'u.__class__ is Contingency', f'filter class {filt_cls}')
     # binary = (Relation(l, r, zip(lbools, rbools)) for (l, lbools), (r, rbools) in combos)
     bins = [n for n in walk(func.body) if isinstance(n, (ast.GeneratorExp, ast.ListComp)) and isinstance(n.elt, ast.Call)
             and name_is(n.elt.func, 'Relation') and len(n.elt.args) == 3 and isinstance(n.elt.args[2], ast.Call)]
@@ -239,7 +250,7 @@ def relations_init(model, R):
             z = a[2]
             ok = (src(a[0]) == l and src(a[1]) == r and name_is(z.func, 'zip') and [src(x) for x in z.args] == [lb, rb] and not g.ifs)
             src_ok = src(env.expand(g.iter, alias_only=True)) in ('combos', src(c))
-            ok = ok and (name_is(g.iter, 'combos') or src(g.iter) == src(c))
+            ok = ok and (src(env.expand(g.iter)) == src(env.expand(c)) or src(g.iter) == src(c))
         R.check(ok, 'PAIRING', func, b, 'columns zipped in the same left/right order as the items',
                 'Relation(l, r, zip(lbools, rbools)) for (l, lbools), (r, rbools) in combos', src(b)[:120])
     # members: unary only with include_unary
